@@ -1398,7 +1398,7 @@ def c11(ctx):
     if not pw:
         out.append(undecided(R, key2, 'anchor not found'))
     else:
-        takes = [(bb, t) for bb, t in calls(pw, 'core::option::Option::take') if '.context' in render(pw.expr_of_operand(t['args'][0]))]
+        takes = [(bb, t) for bb, t in pw.calls() if (t['func'].get('fn') or '') in ('core::option::Option::take', 'core::clone::Clone::clone') and t['args'] and '.context' in render(pw.expr_of_operand(t['args'][0])) and 'Option' in clean_ty(pw.local_ty(t['dest']['l']))]
         ppolls = set(bb for bb, t in calls(pw, 'PipeContext::poll'))
         exits_ = set(pw.exits())
         if not ppolls:
@@ -1905,7 +1905,7 @@ def c06_drain(ctx):
         out.append(undecided(R, key, 'anchor not found'))
     else:
         wakes = [s for s in g.sites.get(dw.name, []) if s.kind == 'wake']
-        takes = calls(dw, 'core::option::Option::take')
+        takes = calls(dw, 'core::option::Option::take') + [(bb, t) for bb, t in calls(dw, 'core::clone::Clone::clone') if 'Option' in clean_ty(dw.local_ty(t['dest']['l']))]
         if len(wakes) >= 2 and takes:
             # both on the Some edge, one after the other
             a, b = wakes[0].bb, wakes[1].bb
